@@ -386,15 +386,17 @@ func (a *Act) staticCall(res ssa.Value, instr ssa.Instruction, fn *ssa.Function,
 	}
 	a.callSiteObligations(instr, fn, args, st, reach)
 	var rec *callRec
-	if a.top {
-		if a.lastCall == nil {
-			a.lastCall = map[string]*callRec{}
+	if top := a.topThroughWrappers(); top != nil {
+		// (calls made by the function under verification itself, or by a compiler-generated wrapper it calls - promoted
+		// methods of embedded fields)
+		if top.lastCall == nil {
+			top.lastCall = map[string]*callRec{}
 		}
-		if r := a.lastCall[name]; r != nil && r.instr != instr {
+		if r := top.lastCall[name]; r != nil && r.instr != instr {
 			r.ambiguous = true
 		} else {
-			rec = &callRec{fn: fn, args: args, res: res, instr: instr, reach: reach}
-			a.lastCall[name] = rec
+			rec = &callRec{fn: fn, args: args, res: res, instr: instr, reach: reach, act: a}
+			top.lastCall[name] = rec
 		}
 	}
 	a.staticCall0(res, instr, fn, args, st, reach)
@@ -492,7 +494,20 @@ type callRec struct {
 	instr     ssa.Instruction
 	reach     string
 	post      *State // the state right after the call returned
+	act       *Act   // the activation that made the call (the top one, or a wrapper inlined into it)
 	ambiguous bool
+}
+
+// topThroughWrappers: the top activation if a is it or is a compiler-generated wrapper (chain) called by it, else nil
+func (a *Act) topThroughWrappers() *Act {
+	x := a
+	for x != nil && !x.top {
+		if x.fn.Synthetic == "" {
+			return nil
+		}
+		x = x.parent
+	}
+	return x
 }
 
 // callSiteObligations: "callsite F assert e" clauses of the contract under verification, at this call of F: e over
